@@ -47,6 +47,28 @@ __all__ = [
 ]
 
 
+def _n_duration_bins(duration: float, dt: float) -> int:
+    """
+    Number of time bins for a timed duration
+
+    The number of bins is the duration divided by the step size, rounded up, with a minimum of 1 (so that a
+    duration shorter than the step size empties the compartment every timestep). A duration that is a whole number of
+    steps up to floating point error (e.g. ``(5/12)/(1/12)=5.000000000000001``) is treated as that whole number.
+
+    :param duration: Duration in years
+    :param dt: Simulation step size in years
+    :return: Number of bins (rows of the keyring matrix)
+
+    """
+
+    n = duration / dt
+    if abs(n - round(n)) <= 1e-9 * max(1.0, abs(n)):
+        n = round(n)
+    else:
+        n = math.ceil(n)
+    return max(1, int(n))
+
+
 class BadInitialization(Exception):
     """
     Error for invalid conditions
@@ -837,7 +859,7 @@ class TimedCompartment(Compartment):
         self.dt = dt
         assert np.all(self.parameter.vals == self.parameter.vals[0]), "Duration parameter value cannot vary over time"
         duration = self.parameter.vals[0] * self.parameter.timescale * self.parameter.scale_factor
-        self._vals = np.empty((max(1, math.ceil(duration / dt)), tvec.size), order="F")  # Fortran/column-major order should be faster for summing over lags to get `vals`
+        self._vals = np.empty((_n_duration_bins(duration, dt), tvec.size), order="F")  # Fortran/column-major order should be faster for summing over lags to get `vals`
         self._vals.fill(np.nan)
 
     def resolve_outflows(self, ti: int) -> None:
@@ -1498,7 +1520,7 @@ class TimedLink(Link):
             parameter = self.pop.par_lookup[self.source.duration_group]
             assert np.all(parameter.vals == parameter.vals[0]), "Duration parameter value cannot vary over time"
             duration = parameter.vals[0] * parameter.timescale * parameter.scale_factor
-            self._vals = np.empty((math.ceil(duration / dt), tvec.size), order="F")  # Fortran/column-major order should be faster for summing over lags to get `vals`
+            self._vals = np.empty((_n_duration_bins(duration, dt), tvec.size), order="F")  # Fortran/column-major order should be faster for summing over lags to get `vals`
         self._vals.fill(np.nan)
 
     def update(self, ti: int, converted_frac: float) -> None:
